@@ -137,7 +137,27 @@ SEQ_ATOMS = [("perm", b""), ("perm", b"\x01\x02\x03"), ("perm", bytes(range(8)))
              ("swap", b"\x03\x06", -1), ("perm", bytes(range(9, 0, -1)))]
 
 
+# calls the documented signatures do not admit (an immutable bytes object cannot be changed in place; None; a str): whatever
+# they do is not judged, but they must leave nothing behind that changes a later, valid call
+BAD_ATOMS = [("bad", fn, kind) for fn in ("interleave", "deinterleave", "flip_msb", "swap_multiples") for kind in ("bytes", "none", "str")]
+
+
+def _bad_call(fn_name, kind):
+    m = _fns()
+    arg = {"bytes": b"\x06\x03\x09\x01\x0c\x0c", "none": None, "str": "\x06\x03\x09"}[kind]
+    try:
+        if fn_name == "swap_multiples":
+            m.swap_multiples(arg, 3)
+        else:
+            getattr(m, fn_name)(arg)
+    except Exception:  # noqa: BLE001
+        pass
+
+
 def check_atom(atom):
+    if atom[0] == "bad":
+        _bad_call(atom[1], atom[2])
+        return None
     if atom[0] == "perm":
         return check_perm(bytes(atom[1]))
     if atom[0] == "flip":
@@ -157,9 +177,11 @@ def _seq_shard(firsts):
     loader.install_shims()
     count, bad = 0, []
     for a in firsts:
-        for rest in itertools.product(SEQ_ATOMS, repeat=2):
+        seqs = [[a] + list(rest) for rest in itertools.product(SEQ_ATOMS, repeat=2)]
+        # error paths: (valid, inadmissible, valid) and (inadmissible, valid)
+        seqs += [[a, b, c] for b in BAD_ATOMS for c in SEQ_ATOMS] + [[b, a] for b in BAD_ATOMS]
+        for seq in seqs:
             count += 1
-            seq = [a] + list(rest)
             w = check_seq(seq)
             if w and len(bad) < 3:
                 bad.append(({"fn": "seq", "data": b"", "seq": [list(x) for x in seq]}, w))
